@@ -380,7 +380,7 @@ func (c *Ctx) ruleErrorConstruction(rr *RuleRep) {
 				return "result of " + cc.Method.Name(), true // ctx.Err(), Transport.Close(), interface calls
 			}
 			callee := c.StaticCalleeOf(cc)
-			if callee == nil {
+			if callee == nil || cc.StaticCallee() == nil {
 				return "result of a function value (option / retry handle / callback)", true
 			}
 			if callee.Pkg == c.Pkg {
